@@ -240,3 +240,91 @@ func VerifC02_history() {
 		vfAssert(!inRange, "column-handle-for-every-column")
 	}
 }
+
+// VerifC02_sizedrows: rows created by the table at table size (AppendNewRow, NewRowSizedFor) are as
+// independent as any other rows: cells added to them in any interleaving, in any number (more or
+// fewer than the table has columns), end up in their own row, in order, and nowhere else.
+func VerifC02_sizedrows() {
+	t := New()
+	nc := 1 + vfChoice("cols", 2)
+	first := make([]interface{}, nc)
+	for i := range first {
+		first[i] = "c"
+	}
+	base := 0 // rows already in the table
+	if vfChoice("via", 2) == 0 {
+		t.AddHeaders(first...)
+	} else {
+		t.AddRowItems(first...)
+		base = 1
+	}
+	nr := 3
+	adds := 5
+	if vfTier() == 1 {
+		nr, adds = 3, 8
+	}
+	rows := make([]*Row, nr)
+	detached := make([]bool, nr)
+	for i := range rows {
+		if vfChoice(vfName("mk", i), 2) == 0 {
+			rows[i] = t.AppendNewRow()
+		} else {
+			rows[i] = t.NewRowSizedFor()
+			detached[i] = true
+		}
+	}
+	content := make([][]int, nr)
+	for a := 0; a < adds; a++ {
+		j := vfChoice(vfName("to", a), nr)
+		rows[j].Add(NewCell(100 + a))
+		content[j] = append(content[j], 100+a)
+	}
+	// positions: rows appended at creation come first in creation order, detached ones are attached now
+	var order []int
+	for i := range rows {
+		if !detached[i] {
+			order = append(order, i)
+		}
+	}
+	for i := range rows {
+		if detached[i] {
+			t.AddRow(rows[i])
+			order = append(order, i)
+		}
+	}
+	vfAssert(t.NRows() == base+nr, "row-count")
+	all := t.AllRows()
+	if len(all) != base+nr {
+		vfFail("allrows-length")
+		return
+	}
+	for pos, i := range order {
+		rowNum := base + pos + 1
+		vfAssert(all[rowNum-1] == rows[i], "rows-in-insertion-order")
+		cells := rows[i].Cells()
+		vfAssert(len(cells) == len(content[i]), "row-cell-count")
+		if len(cells) != len(content[i]) {
+			continue
+		}
+		for k := range cells {
+			vfAssert(cells[k].Item() == interface{}(content[i][k]), "cell-is-the-one-added-there")
+			loc := cells[k].Location()
+			vfAssert(vfAnd(loc.Row == rowNum, loc.Column == k+1), "found-cell-reports-its-location")
+			got, err := t.CellAt(CellLocation{Row: rowNum, Column: k + 1})
+			vfAssert(err == nil, "lookup-succeeds-only-in-range")
+			if err == nil {
+				vfAssert(got.Item() == interface{}(content[i][k]), "lookup-returns-that-very-cell")
+			}
+		}
+		_, err := t.CellAt(CellLocation{Row: rowNum, Column: len(cells) + 1})
+		vfAssert(err != nil, "lookup-fails-only-out-of-range")
+	}
+	want := nc
+	for i := range content {
+		if len(content[i]) > want {
+			want = len(content[i])
+		}
+	}
+	vfAssert(t.NColumns() == want, "column-count")
+	vfObserveInt("ncols", t.NColumns())
+}
